@@ -391,6 +391,27 @@ def run_case(concepts, case, spec):
         COL.count('reentrant_argument_collections')
         call(list, lat.upset_union(lat.atoms))
         call(list, lat.downset_union(lat.atoms))
+    if n <= 2000:
+        # the other traversal of the class (upset_generalization, experimental) shares the helpers: it is run to
+        # its normal end - seeds that are incomparable, seeds whose extents unite to an extent - and the
+        # judged traversals follow at once, on this lattice and on an older one
+        for t in range(6):
+            ms = [members[rng.randrange(n)] for _ in range(rng.randint(1, 3))]
+            if t % 2 and len(lat.atoms) >= 2:
+                ms = rng.sample(list(lat.atoms), 2)
+            try:
+                with core.monitor_code():
+                    list(lat.upset_generalization(ms))
+            except (core.CaseTimeout, core.CaseTooLarge):
+                raise
+            except Exception:
+                COL.count('upset_generalization_raised')
+            c = members[rng.randrange(n)]
+            call(list, c.downset())
+            call(list, c.upset())
+            call(list, lat.downset_union(ms))
+            call(list, lat.upset_union(ms))
+        COL.count('traversals_right_after_upset_generalization')
     if len(ctx.objects) <= 12 and len(ctx.properties) <= 12 and n <= 200:
         common.interference(concepts, ctx, lat, rng, 15)
         for _ in range(8):
